@@ -33,6 +33,10 @@ def items(ctx):
                          # psi incl. per-series 4-tuples: DTW is then not symmetric in (series, mean)
                          "psi": rng.choice([None, None, None, 1, [1, 0, 0, 0], [0, 0, 1, 0], [1, 1, 0, 0], [0, 1, 1, 0]]),
                          "maxit": rng.choice([1, 2, 5]), "dbait": rng.choice([1, 3]), "monitor": rng.random() < 0.7})
+        if rng.random() < 0.4:
+            # the second fit re-uses the first fit's model object (same construction), other seed, maybe fewer series
+            fits[1] = dict(fits[0], seed=rng.randint(0, 10 ** 6), reuse=True,
+                           drop_last=(n - 1 > fits[0]["k"]) and rng.random() < 0.6)
         out.append({"series": sers, "fits": fits, "matrix": rng.random() < 0.4})
     # options that bind (window 1, penalty 2-3, per-series psi) on longer and multivariate series: an assignment
     # helper that drops or mangles dists_options then picks a mean that is not nearest
@@ -64,7 +68,7 @@ RULE = ("model: the assign / stop / repair-empty / update / final-assign state m
         "state has keys 0..k-1, a partition, nearest-mean membership and performed_it <= max_it+1. implementation: "
         "seeded data sets (n 3-8, k < n, ndim 1-2, duplicates, list and matrix containers) x seeds x initialisation "
         "{k-means++, random, sample size 1} x drop_stddev x window/penalty/psi (scalar and per-series 4-tuples) x use_c, serial and a few with the real "
-        "multiprocessing Pool; per fit the returned clusters, performed_it, len(means), the monitor_distances calls and "
+        "multiprocessing Pool, second fits on the same model object (other seed, one series fewer); per fit the returned clusters, performed_it, len(means), the monitor_distances calls and "
         "the dense ranks of the DTW distances series x final means (library single-pair routine, decided under "
         "C01/C02) are judged by TLC with the same postcondition predicate; non-trivial = k > 1")
 
